@@ -9,6 +9,7 @@ import (
 	"math/rand"
 	"net/http"
 	"net/url"
+	"strconv"
 	"strings"
 
 	"github.com/flamego/flamego"
@@ -27,7 +28,7 @@ type rwCase struct {
 	Flusher  bool    `json:"underlying_flusher"`
 	ReaderFr bool    `json:"underlying_reader_from,omitempty"` // the underlying writer also implements io.ReaderFrom (as net/http's does)
 	FailAt   int     `json:"fail_at,omitempty"`                // the k-th Write reaching the underlying writer misbehaves (0 = never)
-	FailMode string  `json:"fail_mode,omitempty"`              // short | err | shorterr
+	FailMode string  `json:"fail_mode,omitempty"`              // short | err | shorterr | not-allowed (0, http.ErrBodyNotAllowed) | closed-pipe (0, io.ErrClosedPipe) | short-sentinel (n/2, io.ErrShortWrite)
 	Via      string  `json:"via"`                              // direct (NewResponseWriter) | handler (Context.ResponseWriter inside a request)
 	Ops      []rwOp  `json:"ops"`
 	Other    *rwCase `json:"interleaved_second_writer,omitempty"` // a second writer alive at the same time, its operations interleaved one by one (direct only)
@@ -35,6 +36,14 @@ type rwCase struct {
 
 func init() {
 	register(&Check{ID: "C13", Run: runC13, Replay: func(w *core.W, kind string, raw json.RawMessage) {
+		if kind == "huge" {
+			var hc hugeCase
+			if json.Unmarshal(raw, &hc) == nil {
+				w.Begin("huge", &hc)
+				judgeHuge(w, &hc)
+			}
+			return
+		}
 		var c rwCase
 		if err := json.Unmarshal(raw, &c); err != nil {
 			w.R.Inconclusive("replay case does not decode: " + err.Error())
@@ -62,6 +71,12 @@ func (s *rwSpy) Write(b []byte) (int, error) {
 		switch s.mode {
 		case "short":
 			n = len(b) / 2
+		case "not-allowed": // what net/http answers once a 204 / 304 has been sent: nothing was taken
+			n, err = 0, http.ErrBodyNotAllowed
+		case "closed-pipe":
+			n, err = 0, io.ErrClosedPipe
+		case "short-sentinel":
+			n, err = len(b)/2, io.ErrShortWrite
 		case "err":
 			err = errors.New("injected write error")
 		default:
@@ -212,6 +227,10 @@ func rwVerdict(c *rwCase, obs *rwObs) string {
 					switch c.FailMode {
 					case "short":
 						wantN = op.N / 2
+					case "not-allowed", "closed-pipe":
+						wantN, wantErr = 0, 1
+					case "short-sentinel":
+						wantN, wantErr = op.N/2, 1
 					case "err":
 						wantErr = 1
 					default:
@@ -320,7 +339,7 @@ func genRWCase(rng *rand.Rand) *rwCase {
 		Flusher:  rng.Intn(2) == 0,
 		ReaderFr: rng.Intn(2) == 0,
 		FailAt:   []int{0, 0, 1, 2, 3}[rng.Intn(5)],
-		FailMode: []string{"short", "err", "shorterr"}[rng.Intn(3)],
+		FailMode: []string{"short", "err", "shorterr", "not-allowed", "closed-pipe", "short-sentinel"}[rng.Intn(6)],
 		Via:      "direct",
 	}
 	if rng.Intn(5) == 0 {
@@ -469,8 +488,44 @@ func judgeRW(w *core.W, c *rwCase) {
 	w.Sample(func() interface{} { return map[string]interface{}{"case": c, "forwarded": obs.log} })
 }
 
+// hugeCase: one response whose forwarded body passes 2^31 and 2^32 bytes (the reported size is a count of bytes,
+// not a 32-bit quantity).
+type hugeCase struct {
+	Chunk  int `json:"chunk_bytes"`
+	Writes int `json:"writes"`
+}
+
+type rwDropSpy struct{ h http.Header }
+
+func (s rwDropSpy) Header() http.Header         { return s.h }
+func (s rwDropSpy) WriteHeader(int)             {}
+func (s rwDropSpy) Write(b []byte) (int, error) { return len(b), nil }
+
+func judgeHuge(w *core.W, c *hugeCase) {
+	w.Eval()
+	rw := flamego.NewResponseWriter("GET", rwDropSpy{h: http.Header{}})
+	buf := make([]byte, c.Chunk)
+	total := 0
+	for i := 0; i < c.Writes; i++ {
+		if i%512 == 0 {
+			w.Begin("huge", c)
+		}
+		n, err := rw.Write(buf)
+		if n != len(buf) || err != nil {
+			w.Violate("response-writer-huge", c, fmt.Sprintf("write %d: returned (%d, %v)", i, n, err))
+			return
+		}
+		total += len(buf)
+		if rw.Size() != total {
+			w.Violate("response-writer-huge", c, fmt.Sprintf("after %d bytes forwarded Size() = %d", total, rw.Size()))
+			return
+		}
+	}
+	w.Count("huge-responses")
+}
+
 func runC13(r *core.Run) {
-	r.Rule("random operation sequences (0-12) over WriteHeader(100..999), Write(0..64 bytes), Flush, Before(fn) (registered before and after the first write; one in six functions registers another function while it runs), reads; all nine methods (HEAD over-represented); underlying writer with/without Flusher; fault injection: the k-th underlying Write is short, fails, or both; 1/5 of sequences run inside a handler on Context.ResponseWriter(). Oracle: 20-line state machine predicting every forwarded call, every Status/Size/Written reading and every Write result, plus predicates on the spy log (one status line, first; no body for HEAD; hooks once, reverse order, before the status line, seeing Written()==false). non-trivial = distinct sequences whose first status-sending op is not WriteHeader, or with >=2 hooks before it, or a second WriteHeader, or HEAD with a body write, or a fired fault")
+	r.Rule("random operation sequences (0-12) over WriteHeader(100..999), Write(0..64 bytes), Flush, Before(fn) (registered before and after the first write; one in six functions registers another function while it runs), reads; all nine methods (HEAD over-represented); underlying writer with/without Flusher; fault injection: the k-th underlying Write is short, fails, or both (also with the standard library's own error values, e.g. (0, http.ErrBodyNotAllowed)); four responses whose forwarded body passes 2^31 and 2^32 bytes; 1/5 of sequences run inside a handler on Context.ResponseWriter(). Oracle: 20-line state machine predicting every forwarded call, every Status/Size/Written reading and every Write result, plus predicates on the spy log (one status line, first; no body for HEAD; hooks once, reverse order, before the status line, seeing Written()==false). non-trivial = distinct sequences whose first status-sending op is not WriteHeader, or with >=2 hooks before it, or a second WriteHeader, or HEAD with a body write, or a fired fault")
 	r.Assume("before-functions only record, read accessors and do not re-enter Write/WriteHeader (that deadlocks on sync.Once by Go's documented semantics)")
 	c13Canaries(r)
 	n := r.N(300000, 20000000)
@@ -479,13 +534,22 @@ func runC13(r *core.Run) {
 		w.Begin("rw", c)
 		judgeRW(w, c)
 	})
+	if strconv.IntSize == 64 {
+		huge := []hugeCase{{1 << 20, 2049}, {1 << 20, 4098}, {(1 << 20) + 1, 2100}, {1 << 16, 32769}}
+		r.Parallel("huge", len(huge), func(w *core.W, _ *rand.Rand, i int) {
+			c := huge[i]
+			w.Begin("huge", &c)
+			judgeHuge(w, &c)
+		})
+		r.GateCounter("huge-responses", int64(len(huge)))
+	}
 	r.Gate("distinct_nontrivial", r.NonTrivialCount(), 20000)
 	for _, f := range []string{"WriteHeader", "Write", "Flush"} {
 		for _, h := range []string{"HEAD", "non-HEAD"} {
 			r.GateCounter("first-trigger:"+f+"/"+h, 100)
 		}
 	}
-	for _, k := range []string{"fault-fired:short", "fault-fired:err", "fault-fired:shorterr", "via:handler", "via:direct", "interleaved-writers", "hook-registers-another-before-first-write"} {
+	for _, k := range []string{"fault-fired:short", "fault-fired:err", "fault-fired:shorterr", "fault-fired:not-allowed", "fault-fired:closed-pipe", "fault-fired:short-sentinel", "via:handler", "via:direct", "interleaved-writers", "hook-registers-another-before-first-write"} {
 		r.GateCounter(k, 100)
 	}
 }
